@@ -35,7 +35,7 @@ func tierDeadline(tier string) time.Duration {
 	if tier == "thorough" {
 		return 25 * time.Minute
 	}
-	return 150 * time.Second
+	return 170 * time.Second
 }
 
 // snapshotOracle compares a fresh collection snapshot with the reference model.
